@@ -1,6 +1,7 @@
 import FlVerif.Drv.Leaf
 import FlVerif.Drv.State
 import FlVerif.Drv.Fld
+import FlVerif.Drv.Engine
 
 /-! Registry of driver command groups: one handler per group, tried in order (`none` = not mine / malformed). -/
 
@@ -9,5 +10,6 @@ def handlers : List (List SExp → Option SExp) :=
   [ leaf
   , state
   , fld
+  , engine
   ]
 end Drv
